@@ -11,6 +11,8 @@
 //	finish j       let the callback of requester j return (state store, timer, persist, unlock)
 //	fire           advance virtual time past the poll interval (the armed timer, if any, fires and
 //	               Poll() runs until it blocks inside OnPoll, is skipped, or waits for the lock)
+//	enter k        let the k-th poll that passed its first critical section go on into OnPoll (it is held at the
+//	               verif scheduling point between Poll's unlock and the callback call)
 //	pollend k      let the k-th entered OnPoll callback return (PollDuration 1 ms elapses, Poll re-locks)
 //
 // After every action: GetState(), the state file, the callback log, the
@@ -28,6 +30,7 @@ import (
 	"testing/synctest"
 	"time"
 
+	"github.com/postalsys/muti-metroo/internal/agent"
 	"github.com/postalsys/muti-metroo/internal/config"
 	"github.com/postalsys/muti-metroo/internal/logging"
 	"github.com/postalsys/muti-metroo/internal/sleep"
@@ -37,13 +40,13 @@ import (
 const interval = time.Hour
 
 type action struct {
-	Kind string `json:"kind"` // sleep | wake | finish | fire | pollend
+	Kind string `json:"kind"` // sleep | wake | finish | fire | enter | pollend
 	Idx  int    `json:"idx,omitempty"`
 }
 
 func (a action) String() string {
 	switch a.Kind {
-	case "finish", "pollend":
+	case "finish", "pollend", "enter":
 		return fmt.Sprintf("%s%d", a.Kind, a.Idx)
 	}
 	return a.Kind
@@ -60,6 +63,7 @@ type obs struct {
 	Log     []int `json:"log"`     // 0 OnSleep 1 OnWake 2 OnPoll 3 OnPollEnd
 	Results []int `json:"results"` // per requester: 0 running, 1 ok, 2 ErrAlreadySleeping, 3 ErrNotSleeping, 9 other
 	Writes  int   `json:"writes"`
+	Started int   `json:"started"` // polls that have passed their first critical section
 	InCb    int   `json:"-"`
 }
 
@@ -72,6 +76,8 @@ type world struct {
 	reqGate   chan struct{}
 	pollGates []chan struct{}
 	pollOpen  []bool
+	enterGates []chan struct{}
+	enterOpen  []bool
 	starting  int // requester being started (its goroutine id for the callback)
 }
 
@@ -131,6 +137,18 @@ func runCase(t *testing.T, dir string, cs *caseSpec) (out []obs, done []action, 
 					return nil
 				},
 			})
+			sleep.VerifSetYieldHook(func(point string) {
+				if point != "sleep.poll.before-onpoll" {
+					return
+				}
+				w.mu.Lock()
+				g := make(chan struct{})
+				w.enterGates = append(w.enterGates, g)
+				w.enterOpen = append(w.enterOpen, true)
+				w.mu.Unlock()
+				<-g
+			})
+			defer sleep.VerifSetYieldHook(nil)
 			persist, writes := 0, 0
 			observe := func() obs {
 				synctest.Wait()
@@ -141,7 +159,7 @@ func runCase(t *testing.T, dir string, cs *caseSpec) (out []obs, done []action, 
 				}
 				w.mu.Lock()
 				defer w.mu.Unlock()
-				return obs{State: int(mgr.GetState()), Persist: persist, Log: append([]int(nil), w.log...), Results: append([]int(nil), w.results...), Writes: writes, InCb: w.inCb}
+				return obs{State: int(mgr.GetState()), Persist: persist, Log: append([]int(nil), w.log...), Results: append([]int(nil), w.results...), Writes: writes, Started: len(w.enterGates), InCb: w.inCb}
 			}
 			isEnabled := func(a action) bool {
 				w.mu.Lock()
@@ -157,6 +175,8 @@ func runCase(t *testing.T, dir string, cs *caseSpec) (out []obs, done []action, 
 					// callback), so nothing is lost; if a change made one fire here, Poll would wait on
 					// the mutex, which synctest does not treat as durably blocked (deadlock panic).
 					return w.inCb == -1
+				case "enter":
+					return a.Idx >= 0 && a.Idx < len(w.enterOpen) && w.enterOpen[a.Idx]
 				case "pollend":
 					return w.inCb == -1 && a.Idx >= 0 && a.Idx < len(w.pollOpen) && w.pollOpen[a.Idx]
 				}
@@ -205,6 +225,12 @@ func runCase(t *testing.T, dir string, cs *caseSpec) (out []obs, done []action, 
 					close(g)
 				case "fire":
 					time.Sleep(interval + time.Millisecond)
+				case "enter":
+					w.mu.Lock()
+					g := w.enterGates[a.Idx]
+					w.enterOpen[a.Idx] = false
+					w.mu.Unlock()
+					close(g)
 				case "pollend":
 					w.mu.Lock()
 					g := w.pollGates[a.Idx]
@@ -217,11 +243,14 @@ func runCase(t *testing.T, dir string, cs *caseSpec) (out []obs, done []action, 
 			}
 			// what could come next
 			w.mu.Lock()
-			nReq, nPoll := len(w.results), len(w.pollOpen)
+			nReq, nPoll, nEnter := len(w.results), len(w.pollOpen), len(w.enterOpen)
 			w.mu.Unlock()
 			cands := []action{{Kind: "sleep"}, {Kind: "wake"}, {Kind: "fire"}}
 			for j := 0; j < nReq; j++ {
 				cands = append(cands, action{Kind: "finish", Idx: j})
+			}
+			for k := 0; k < nEnter; k++ {
+				cands = append(cands, action{Kind: "enter", Idx: k})
 			}
 			for k := 0; k < nPoll; k++ {
 				cands = append(cands, action{Kind: "pollend", Idx: k})
@@ -240,6 +269,15 @@ func runCase(t *testing.T, dir string, cs *caseSpec) (out []obs, done []action, 
 			synctest.Wait()
 			mgr.Stop()
 			w.mu.Lock()
+			for k, open := range w.enterOpen {
+				if open {
+					close(w.enterGates[k])
+					w.enterOpen[k] = false
+				}
+			}
+			w.mu.Unlock()
+			synctest.Wait()
+			w.mu.Lock()
 			for k, open := range w.pollOpen {
 				if open {
 					close(w.pollGates[k])
@@ -254,12 +292,96 @@ func runCase(t *testing.T, dir string, cs *caseSpec) (out []obs, done []action, 
 	return
 }
 
+// agentDoPoll runs the agent-level interleaving of C30 on a real agent: the
+// agent's own OnPoll callback (doPoll) has read "not awake" and is held at
+// the verif scheduling point before DisconnectAll while a Wake() completes.
+// Returns the sleep state and whether the peer manager is paused (the mark
+// DisconnectAll leaves) before and after the held goroutine is let go.
+type agentObs struct {
+	Reached     bool `json:"reached_scheduling_point"`
+	StateAfter  int  `json:"state_after_wake"`
+	PausedAtWake bool `json:"paused_when_wake_completed"`
+	PausedEnd   bool `json:"paused_at_end"`
+	WakeErr     string `json:"wake_err,omitempty"`
+}
+
+func agentDoPoll(t *testing.T, dir string, wakeDuringWindow bool) (o agentObs, panicked string) {
+	synctest.Test(t, func(t *testing.T) {
+		panicked = vh.Recover(func() {
+			cfg := config.Default()
+			cfg.Agent.ID = "a0a0a0a0a0a0a0a0a0a0a0a0a0a00000"
+			cfg.Agent.DataDir = dir
+			cfg.Agent.LogLevel = "error"
+			cfg.UDP.Enabled = false
+			cfg.ICMP.Enabled = false
+			cfg.SOCKS5.Enabled = false
+			cfg.HTTP.Enabled = false
+			cfg.Listeners = nil
+			cfg.Peers = nil
+			cfg.Sleep.Enabled = true
+			cfg.Sleep.PersistState = false
+			cfg.Sleep.PollInterval = time.Hour
+			cfg.Sleep.PollIntervalJitter = 0
+			cfg.Sleep.PollDuration = time.Second
+			a, err := agent.New(cfg)
+			if err != nil {
+				panic(err)
+			}
+			held := make(chan struct{})
+			release := make(chan struct{})
+			agent.VerifSetYieldHook(func(point string) {
+				if point == "agent.dopoll.before-disconnect" {
+					close(held)
+					<-release
+				}
+			})
+			defer agent.VerifSetYieldHook(nil)
+			mgr := a.VerifInitSleepManager(sleep.Callbacks{
+				OnSleep: func() error { return nil },
+				OnWake:  func() error { return nil },
+				OnPoll:  a.VerifDoPoll,
+			})
+			defer func() {
+				mgr.Stop()
+				a.Stop()
+			}()
+			if err := mgr.Sleep(); err != nil {
+				panic(err)
+			}
+			time.Sleep(time.Hour + time.Second) // the poll timer fires, doPoll starts
+			time.Sleep(2 * time.Second)         // its poll window (PollDuration) ends, doPoll reads the state
+			synctest.Wait()
+			select {
+			case <-held:
+				o.Reached = true
+			default:
+				close(release)
+				return
+			}
+			if wakeDuringWindow {
+				if err := mgr.Wake(); err != nil {
+					o.WakeErr = err.Error()
+				}
+			}
+			o.StateAfter = int(mgr.GetState())
+			o.PausedAtWake = a.VerifPeersPaused()
+			close(release)
+			synctest.Wait()
+			time.Sleep(10 * time.Millisecond)
+			synctest.Wait()
+			o.PausedEnd = a.VerifPeersPaused()
+		})
+	})
+	return
+}
+
 var edgeOK = map[[2]int]bool{{0, 1}: true, {1, 2}: true, {2, 1}: true, {1, 0}: true, {2, 0}: true}
 
 // monitor: the text of C30 on the observations (no model).
 func monitor(c *vh.Ctx, cs *caseSpec, out []obs) {
 	prev := obs{}
-	pollStart := []int{}   // action index at which poll k entered OnPoll
+	pollStart := []int{}   // action index at which poll k (in start order) passed its first critical section
+	entered := []int{}     // start-order index of the e-th poll that entered OnPoll
 	wakeDone := []int{}    // action indices at which a Wake() completed successfully
 	reqKind := []string{}
 	for i, o := range out {
@@ -284,20 +406,12 @@ func monitor(c *vh.Ctx, cs *caseSpec, out []obs) {
 				c.Fail("wake-while-awake-not-refused", fmt.Sprintf("action %d: Wake() in state AWAKE gave result %d, log %v -> %v", i, o.Results[j], prev.Log, o.Log), cs)
 			}
 		}
-		// new polls that entered OnPoll during this action
-		nPollBefore, nPollAfter := 0, 0
-		for _, e := range prev.Log {
-			if e == 2 {
-				nPollBefore++
-			}
-		}
-		for _, e := range o.Log {
-			if e == 2 {
-				nPollAfter++
-			}
-		}
-		for k := nPollBefore; k < nPollAfter; k++ {
+		// polls that passed their first critical section during this action
+		for k := prev.Started; k < o.Started; k++ {
 			pollStart = append(pollStart, i)
+		}
+		if a.Kind == "enter" {
+			entered = append(entered, a.Idx)
 		}
 		// completed wakes
 		for j := range o.Results {
@@ -305,18 +419,26 @@ func monitor(c *vh.Ctx, cs *caseSpec, out []obs) {
 				wakeDone = append(wakeDone, i)
 			}
 		}
-		// stale poll activity: poll k started before a wake completed, and now ends
-		if a.Kind == "pollend" && a.Idx < len(pollStart) {
-			stale := false
+		// stale poll activity: the poll passed its first critical section before a wake completed
+		staleSince := func(k int) bool {
+			if k < 0 || k >= len(pollStart) {
+				return false
+			}
 			for _, wd := range wakeDone {
-				if wd >= pollStart[a.Idx] && wd < i {
-					stale = true
+				if wd >= pollStart[k] && wd < i {
+					return true
 				}
 			}
-			if stale && (len(o.Log) != len(prev.Log) || o.State != prev.State || o.Writes != prev.Writes) {
-				c.Fail("stale-poll-effect-after-wake", fmt.Sprintf("action %d: poll %d began at action %d, a wake completed since, yet ending it changed state %d -> %d, callbacks %v -> %v, state file written: %v",
-					i, a.Idx, pollStart[a.Idx], prev.State, o.State, prev.Log, o.Log, o.Writes != prev.Writes), cs)
-			}
+			return false
+		}
+		if a.Kind == "pollend" && a.Idx < len(entered) && staleSince(entered[a.Idx]) &&
+			(len(o.Log) != len(prev.Log) || o.State != prev.State || o.Writes != prev.Writes) {
+			c.Fail("stale-poll-effect-after-wake", fmt.Sprintf("action %d: poll %d began at action %d, a wake completed since, yet ending it changed state %d -> %d, callbacks %v -> %v, state file written: %v",
+				i, entered[a.Idx], pollStart[entered[a.Idx]], prev.State, o.State, prev.Log, o.Log, o.Writes != prev.Writes), cs)
+		}
+		if a.Kind == "enter" && staleSince(a.Idx) {
+			c.Fail("stale-onpoll-entered-after-wake", fmt.Sprintf("action %d: poll %d passed its first critical section at action %d, a wake completed since, and now its OnPoll callback is entered (state %d)",
+				i, a.Idx, pollStart[a.Idx], o.State), cs)
 		}
 		// persisted state matches the state whenever no transition is in progress
 		if o.InCb == -1 && o.Persist != o.State {
@@ -340,6 +462,8 @@ func coqAction(a action) string {
 		return fmt.Sprintf("AFinish %d", a.Idx)
 	case "fire":
 		return "AFire"
+	case "enter":
+		return fmt.Sprintf("AEnter %d", a.Idx)
 	default:
 		return fmt.Sprintf("APollEnd %d", a.Idx)
 	}
@@ -395,7 +519,7 @@ func TestVerif(t *testing.T) {
 		monitor(c, cs, out)
 		it := make([]string, len(out))
 		for i, o := range out {
-			it[i] = fmt.Sprintf("(%s, mkmobs %s %s %s %s %s)", coqAction(cs.Actions[i]), vh.CoqN(uint64(o.State)), vh.CoqN(uint64(o.Persist)), coqNs(o.Log), coqNs(o.Results), vh.CoqN(uint64(o.Writes)))
+			it[i] = fmt.Sprintf("(%s, mkmobs %s %s %s %s %s %s)", coqAction(cs.Actions[i]), vh.CoqN(uint64(o.State)), vh.CoqN(uint64(o.Persist)), coqNs(o.Log), coqNs(o.Results), vh.CoqN(uint64(o.Writes)), vh.CoqN(uint64(o.Started)))
 		}
 		coq = append(coq, vh.CoqList(it))
 		return enabled
@@ -404,7 +528,7 @@ func TestVerif(t *testing.T) {
 		cs := &caseSpec{}
 		for _, w := range strings.Fields(s) {
 			a := action{Kind: w}
-			for _, pre := range []string{"finish", "pollend"} {
+			for _, pre := range []string{"finish", "pollend", "enter"} {
 				if strings.HasPrefix(w, pre) {
 					a.Kind = pre
 					fmt.Sscan(w[len(pre):], &a.Idx)
@@ -426,24 +550,51 @@ func TestVerif(t *testing.T) {
 		// fixed witnesses first
 		for _, w := range []string{
 			// poll in OnPoll; wake; sleep; the old poll resumes
-			"sleep finish0 fire wake finish1 sleep finish2 pollend0",
+			"sleep finish0 fire enter0 wake finish1 sleep finish2 pollend0",
 			// ... while a new poll is running: the old one stores SLEEPING over POLLING and runs OnPollEnd, then the new one ends too
-			"sleep finish0 fire wake finish1 sleep finish2 fire pollend0 pollend1",
+			"sleep finish0 fire enter0 wake finish1 sleep finish2 fire enter1 pollend0 pollend1",
 			// wake during a poll, poll ends awake
-			"sleep finish0 fire wake finish1 pollend0",
+			"sleep finish0 fire enter0 wake finish1 pollend0",
+			// the wake completes between Poll's unlock and the OnPoll call
+			"sleep finish0 fire wake finish1 enter0 pollend0",
 			// plain cycle
-			"sleep finish0 fire pollend0 fire pollend1 wake finish1",
+			"sleep finish0 fire enter0 pollend0 fire enter1 pollend1 wake finish1",
 			// refusals
 			"sleep finish0 sleep wake finish2 wake",
 			// wake completes, time passes (no timer must be left), sleep again and poll
-			"sleep finish0 wake finish1 fire sleep finish2 fire pollend0",
+			"sleep finish0 wake finish1 fire sleep finish2 fire enter0 pollend0",
 		} {
 			cs := parse(w)
 			cs.Why = "witness"
 			do(cs)
 		}
+		// agent level: doPoll's unlocked "state read, then DisconnectAll" against a completing Wake
+		for _, wake := range []bool{true, false} {
+			nDir++
+			dir := filepath.Join(base, fmt.Sprintf("agent%d", nDir))
+			os.MkdirAll(dir, 0o755)
+			ao, p := agentDoPoll(t, dir, wake)
+			rp := map[string]any{"scenario": "agent-dopoll", "wake_while_held_before_disconnect": wake, "observed": ao}
+			if p != "" {
+				c.Fail("panic", p, rp)
+				continue
+			}
+			c.Case(fmt.Sprintf("agent-dopoll/%v", wake), true, rp)
+			c.Count("agent-dopoll")
+			coq = append(coq, "[]")
+			if !ao.Reached {
+				c.Fail("agent-dopoll-scenario-not-reached", "doPoll did not reach the scheduling point before DisconnectAll", rp)
+				continue
+			}
+			if wake && ao.StateAfter == 0 && !ao.PausedAtWake && ao.PausedEnd {
+				c.Fail("agent-dopoll-disconnects-after-wake", "agent.doPoll read a non-awake state, Wake() completed (state AWAKE), then doPoll called DisconnectAll: peers dropped and reconnection paused while awake", rp)
+			}
+			if !wake && !ao.PausedEnd {
+				c.Fail("agent-dopoll-did-not-disconnect", "poll window ended while still sleeping but the peers were not disconnected", rp)
+			}
+		}
 		// exhaustive enumeration of all schedules up to a length
-		depth := c.N(5, 8)
+		depth := c.N(5, 7)
 		frontier := [][]action{{}}
 		for d := 0; d < depth; d++ {
 			var next [][]action
@@ -481,6 +632,12 @@ func TestVerif(t *testing.T) {
 				var fin, pe, other []action
 				for _, a := range en {
 					switch a.Kind {
+					case "enter":
+						if r.Chance(2, 3) {
+							fin = append(fin, a)
+						} else {
+							other = append(other, a)
+						}
 					case "finish":
 						fin = append(fin, a)
 					case "pollend":
